@@ -137,7 +137,9 @@ def run(ck, pid=PID, level="cache", props=PROPS):
     v1 = su.validate(ck, t_steer, trace_cfg, only_world=v0.world, timeout=2400)
     if not v1.accepted:     # a probe that was not steered exactly may not discriminate: full search before a verdict
         v1 = su.validate(ck, t_steer, trace_cfg, timeout=2400)
-    v2 = su.validate(ck, t_stress, trace_cfg, only_world=v1.world if v1.accepted else None, timeout=2400)
+    v2 = su.validate(ck, t_stress, trace_cfg, only_world=v1.world if v1.accepted else v0.world, timeout=2400)
+    if not v2.accepted and v1.accepted:   # same precaution as for the steered logs
+        v2 = su.validate(ck, t_stress, trace_cfg, timeout=2400)
     if t_again and v1.accepted:
         v3 = su.validate(ck, t_again, trace_cfg, only_world=v1.world, timeout=1200)
         su.judge(ck, pid, v3, t_again, idx_again, missing, level, props, "again")
